@@ -443,9 +443,28 @@ def _law_case(args):
     for setup in (dict(), dict(channel_width=30.0), dict(flow_rate=0.16),
                   dict(px_um=0.0), dict(channel_width=40.0, px_um=0.0,
                                         flow_rate=0.32)):
-        for vm in ("buyukurganci-2022", "herold-2017"):
-            tk = dict(medium="CellCarrier", visc_model=vm, **setup)
+        for med, vm in (("CellCarrier", "buyukurganci-2022"),
+                        ("CellCarrier", "herold-2017"),
+                        ("CellCarrier B", "buyukurganci-2022"),
+                        ("0.83% MC-PBS", "buyukurganci-2022"),
+                        ("water", "kestin-1978")):
+            tk = dict(medium=med, visc_model=vm, **setup)
             xs = cx * (setup.get("channel_width", 20.0) / 20.0) ** pw
+            # a named medium stands for its viscosity in this set-up
+            from dclab.features.emodulus.viscosity import get_viscosity
+            eta = get_viscosity(medium=med, model=vm, temperature=23.0,
+                                channel_width=setup.get("channel_width",
+                                                        20.0),
+                                flow_rate=setup.get("flow_rate", 0.04))
+            tkn = dict(tk, medium=float(eta), visc_model=None)
+            by_name = E(x=xs, temperature=23.0, **tk)
+            by_number = E(x=xs, temperature=None, **tkn)
+            cnt += 1
+            if not np.allclose(by_name, by_number, rtol=RT(lut_id, 1e-9),
+                               equal_nan=True):
+                bad("medium-differs-from-its-viscosity",
+                    f"{setup} {med}/{vm} at 23 degC: {by_name} vs the same "
+                    f"call with the numeric viscosity {eta}: {by_number}")
             per_event = E(x=xs, temperature=temps, **tk)
             single = np.array([E(x=xs[i:i + 1], d=cd[i:i + 1],
                                  temperature=float(temps[i]), **tk)[0]
